@@ -364,8 +364,9 @@ def _run_requests(ctx: Ctx, cases, segs, servers, conns: Conns, obs: list) -> No
             o["hung"] = False
             if not clean(o):
                 o["hung"] = _after_eof(conns, (wn, tr), o)
-                if reused or o["short"]:
-                    # attribute it: the same request alone on a fresh connection, generous watchdog, strict lock-step
+                if reused or (o["short"] and not o["died"]):
+                    # attribute / confirm it: the same request alone on a fresh connection, generous watchdog, strict
+                    # lock-step (an exception that escaped serve on a fresh connection needs no confirmation)
                     segs.good.reset()
                     conc = R.concretise(case, v, segs, ctx.rng)
                     lv2, _ = conns.get(wn, tr, fresh=True)
